@@ -232,8 +232,8 @@ def ipv6_addr(comp_expr):
 
         try:
             ip_bytes = socket.inet_pton(socket.AF_INET6, ip_str)
-        except OSError:
-            # illegal IPv6 address string
+        except (OSError, ValueError):
+            # illegal IPv6 address string (ValueError: it contains a NUL)
             return
 
         if is_cidr:
